@@ -590,7 +590,13 @@ impl<'g> TestList<'g> {
         // Treat ignored and non-ignored as separate sets of single filters, so that partitioning
         // based on one doesn't affect the other.
         let mut non_ignored_filter = filter.build();
+        // libtest prints all tests, including ignored ones, if --ignored is not passed in. Don't
+        // let those ignored tests advance the (count-based) partitioner for non-ignored tests.
+        let ignored_names = Self::parse(&test_binary.binary_id, ignored.as_ref())?;
         for test_name in Self::parse(&test_binary.binary_id, non_ignored.as_ref())? {
+            if ignored_names.binary_search(&test_name).is_ok() {
+                continue;
+            }
             test_cases.insert(
                 test_name.into(),
                 RustTestCaseSummary {
@@ -607,7 +613,7 @@ impl<'g> TestList<'g> {
         }
 
         let mut ignored_filter = filter.build();
-        for test_name in Self::parse(&test_binary.binary_id, ignored.as_ref())? {
+        for test_name in ignored_names {
             // Note that libtest prints out:
             // * just ignored tests if --ignored is passed in
             // * all tests, both ignored and non-ignored, if --ignored is not passed in
